@@ -58,3 +58,41 @@ SPECS = {
         "assumptions": ["u64 indexes (<= 2^64-1) for the joint 'largest' statement"],
     },
 }
+
+TB_NODE = TB_COMMON + [
+    "hooks in /repo under cfg(tikv_raft_rs_verif): read-only views of private RaftCore/RawNode fields; election-timeout recorder/override (the drawn value is an oracle input of the model)",
+    "cluster simulator /verif/harness/src/sim.rs (event alphabet, contract-abiding application, SimStorage = MemStorage with the application's own snapshot); dump/encode code harness/src/node.rs; outbound messages compared after a stable sort by destination (hash iteration order not modelled)",
+    "model-only oracle m_ccinfo: what the real protobuf decoder says about a conf-change entry's data (computed by the harness)",
+    "modelled not verified: src/raft.rs, src/raw_node.rs, src/raft_log.rs, src/log_unstable.rs, src/read_only.rs, src/tracker*.rs as ported in coq/M (debug-build semantics); not modelled: logging, Status, protobuf codec, rand, memory safety",
+]
+
+
+def node_spec(pid, projection, monitor, text, partial, design_ref, explanation, extra_assumptions=()):
+    return {
+        "id": pid, "kind": "node", "projection": projection, "monitor": monitor,
+        "incoq": {"quick": 40, "thorough": 200},
+        "trusted_base": TB_NODE,
+        "explanation": explanation,
+        "assumptions": ["debug-build semantics", "the simulated application follows the documented Ready/advance contract (DESIGN.md 4.2)"] + list(extra_assumptions),
+        "manifest": {
+            "technique": "machine-checked proof in Coq about the executable node model (per-step theorems) + pointwise model/implementation correspondence on simulated cluster executions",
+            "text": text + (" PARTIAL: " + partial if partial else ""),
+            "design_ref": design_ref,
+            "note": "Trusted: Coq kernel; hand-written node model (M/Raft.v, M/RawNode.v, ...) validated against the code on every run by pointwise differential execution from the implementation's own pre-states (extracted OCaml + in-Coq vm_compute sample); hooks; simulator and dump code. No axioms.",
+        },
+    }
+
+
+SPECS["C16"] = node_spec(
+    "C16", ["hard", "timers", "msgs.vote"], "prevote",
+    "Props/C16.v: for every node state and every message, handling a pre-vote request leaves term and vote unchanged (all paths), and under the check-quorum lease a higher-term (pre)vote request that is not a forced transfer changes nothing and emits nothing. The node model is tied to src/raft.rs by the pointwise differential on term/vote/role/leader/timers and vote traffic of every simulated call.",
+    "the pre-candidate term clause and the cluster-level non-disruption window theorem are not yet proved; they are exercised only by the differential and the monitor.",
+    "DESIGN.md section 7, C16",
+    "Theorems: Props/C16.v (per-step, unbounded over states and messages). Tie: pointwise differential of M/Raft.v against RawNode on simulated executions, projection hard+timers+vote traffic.")
+
+SPECS["C03"] = node_spec(
+    "C03", ["hard", "msgs.vote", "log"], "vote_restriction",
+    "Props/C03.v: for every node state and every vote or pre-vote request, a non-rejecting response is emitted only if the candidate's last (term, index) is at least the voter's own and the priority tie-break holds (the election restriction), proved on the node model for all states/messages; tied to src/raft.rs + src/raft_log.rs by the pointwise differential on vote handling.",
+    "leader completeness over executions (invariant LC) is not yet proved.",
+    "DESIGN.md section 7, C03",
+    "Theorems: Props/C03.v. Tie: pointwise differential, projection hard+log+vote traffic.")
